@@ -366,8 +366,9 @@ func formatPostingWithOpts(posting *ast.Posting, alignment AlignmentInfo, commod
 	}
 
 	if posting.Comment != "" {
+		// the comment text starts after the semicolon and usually carries the blank that followed it
 		sb.WriteString("  ; ")
-		sb.WriteString(posting.Comment)
+		sb.WriteString(strings.TrimLeft(posting.Comment, " \t"))
 	}
 
 	return sb.String()
